@@ -172,6 +172,32 @@ func c17r2(p *Program, r *Report) {
 								}
 							}
 						}
+						if a2, ok := step.Node.(*ast.AssignStmt); ok && len(a2.Rhs) == 1 && len(a2.Lhs) > 1 {
+							// counts returned by a helper that reads the pool's fields
+							if hc, isCall := ast.Unparen(a2.Rhs[0]).(*ast.CallExpr); isCall {
+								if fn := calleeOf(info, hc); fn != nil {
+									if h := p.FuncOf(fn); h != nil && h.Decl.Body != nil {
+										reads := false
+										ast.Inspect(h.Decl.Body, func(y ast.Node) bool {
+											if sel, isSel := y.(*ast.SelectorExpr); isSel && p.isFieldOf(h.Pkg.TypesInfo, sel, "hostConnPool") {
+												reads = true
+											}
+											return true
+										})
+										for _, l2 := range a2.Lhs {
+											if id, isId := l2.(*ast.Ident); isId && id.Name != "_" {
+												if reads {
+													st = st.with(id.Name)
+												} else {
+													st = st.without(id.Name)
+												}
+											}
+										}
+									}
+								}
+							}
+							return st
+						}
 						if a2, ok := step.Node.(*ast.AssignStmt); ok && len(a2.Lhs) == len(a2.Rhs) {
 							for j, l2 := range a2.Lhs {
 								id, isId := l2.(*ast.Ident)
